@@ -159,10 +159,10 @@ class Triggs(nn.Module):
         x, g1, g2 = self.compute_grads(R)
         se = g1.sqrt()
         sj = se.expand_as(R).unsqueeze(-1)
-        sR, sJ = se * R, sj * J.view(R.shape + (J.shape[-1],))
+        sR, sJ = se * R, sj * J.reshape(R.shape + (J.shape[-1],))
         M = ~((x==0)|(g2 <=0)).squeeze(-1)
         alpha = 1 - (1 + 2*x[M]*g2[M]/g1[M]).clamp(min=0).sqrt()
         sR[M] = sR[M] / (1 - alpha)
         Q = torch.einsum('...d,...k,...kl->...dl', R[M], R[M], sJ[M])
         sJ[M] = sJ[M] - (alpha / x[M]).unsqueeze(-1) * Q
-        return sR, sJ.view_as(J)
+        return sR, sJ.reshape(J.shape)
